@@ -64,14 +64,14 @@ KEYMON = {
             'floor': 500, 'req': ['c09_pairs_respelled', 'c09_behaviour_checks'],
             'anchors': ['keygen_transfer', 'keymap_flat_sorted']},
     'C10': {'quick': {'cases': 8000, 'budget_s': 40}, 'thorough': {'cases': 400000, 'budget_s': 600},
-            'floor': 500, 'req': ['c10_pairs', 'c10_typed_pairs', 'c10_behaviour_checks'],
+            'floor': 500, 'req': ['c10_pairs', 'c10_typed_pairs', 'c10_behaviour_checks', 'c10_flattening_pairs', 'c10_type_swap_pairs'],
             'anchors': ['keymap_flat_sorted']},
     'C11': {'quick': {'cases': 6000, 'budget_s': 45}, 'thorough': {'cases': 300000, 'budget_s': 600},
             'floor': 500, 'req': ['c11_ignored_pairs', 'c11_discriminating_pairs', 'c11_behaviour_checks'],
             'anchors': ['keygen_crossref']},
     'C12': {'quick': {'cases': 8000, 'budget_s': 40}, 'thorough': {'cases': 400000, 'budget_s': 600},
             'floor': 300, 'req': ['c12_receive_checks', 'c12_pairs_expected_merged', 'c12_pairs_expected_split',
-                                  'c12_standalone_checks'],
+                                  'c12_standalone_checks', 'c12_behaviour_checks', 'c12_keygen_passthrough_checks'],
             'anchors': ['deep_round_dict']},
 }
 
